@@ -65,7 +65,7 @@ Lemma PH_TInv now0 s : PH now0 s [] -> 0 <= cnow s < TMAX -> now s = floor_ns (c
 Proof.
   intros P Hc Hn. destruct P. constructor; try assumption.
   intros i vs Hg. destruct (h_slots i vs Hg) as [G L]. split; [assumption|].
-  destruct (curr_of vs), (expiry_of vs); auto. destruct L as (L1 & [[L2 L3]|[cb []]]). repeat split; try assumption; lia.
+  destruct (curr_of vs), (expiry_of vs); auto. destruct L as (L1 & [[L2 L3]|[cb []]]). split; [assumption|split; assumption].
 Qed.
 
 Lemma PH_qok now0 s hd : PH now0 s hd -> qok (now s) (queue s).
@@ -94,7 +94,7 @@ Qed.
 Lemma ph_requeue now0 s e hd vs x c' ex' :
   PH now0 s (e :: hd) -> e_slot e < FIX -> vget (var s) (e_slot e) = Some vs ->
   gnn x = gnn vs -> curr_of x = Some c' -> expiry_of x = Some ex' ->
-  now s < c' <= now s + WIN -> c' mod 65536 <= 61036 -> 0 <= ex' < 2 ^ 50 ->
+  now s < c' <= now s + WIN -> c' mod 65536 <= 61036 -> ex_ok ex' ->
   PH now0 (m_requeue s (e_slot e) x (c' mod M32) (e_cb e)) hd /\
   (forall y, In y (queue (m_requeue s (e_slot e) x (c' mod M32) (e_cb e))) <->
              y = (c' mod M32, e_slot e, e_cb e) \/ In y (queue s)).
@@ -288,7 +288,7 @@ Qed.
 (** ** move: overwrite a live slot keeping its generation and current key *)
 Lemma ph_set_expiry now0 s hd i vs x c ex' :
   PH now0 s hd -> vget (var s) i = Some vs -> curr_of vs = Some c ->
-  gnn x = gnn vs -> curr_of x = Some c -> expiry_of x = Some ex' -> 0 <= ex' < 2 ^ 50 ->
+  gnn x = gnn vs -> curr_of x = Some c -> expiry_of x = Some ex' -> ex_ok ex' ->
   PH now0 (set_var s (vset (var s) i x)) hd.
 Proof.
   intros P Hg Hc Hgn Hcx Hex Hex'. destruct (curr_live _ _ Hc) as [Hl [ex0 Hex0]]. destruct (curr_live _ _ Hcx) as [Hlx _].
@@ -326,7 +326,7 @@ Proof. intros [->| ->]; cbn; auto. Qed.
 
 Lemma ph_alloc s it c ex cb :
   PH (now s) s [] -> Z.of_nat (length (var s)) < FIX -> live_item it c ex ->
-  now s < c <= now s + WIN -> c mod 65536 <= 61036 -> 0 <= ex < 2 ^ 50 ->
+  now s < c <= now s + WIN -> c mod 65536 <= 61036 -> ex_ok ex ->
   exists s1 i g, alloc_slot s it = Some (s1, i, g) /\ PH (now s) s1 [(c mod M32, i, cb)] /\
     queue s1 = queue s /\ now s1 = now s /\ seq s1 = seq s /\ cnow s1 = cnow s /\
     0 <= i < FIX /\ 1 <= g < M32 /\
@@ -489,7 +489,7 @@ Definition alloc_facts (s s1 : tstate) (i g : Z) (it : vitem) : Prop :=
 
 Lemma alloc_insert_ok s it c ex cb n :
   TInv s -> counters_ok s n -> n < HMAX -> live_item it c ex ->
-  now s < c <= now s + WIN -> c mod 65536 <= 61036 -> 0 <= ex < 2 ^ 50 ->
+  now s < c <= now s + WIN -> c mod 65536 <= 61036 -> ex_ok ex ->
   exists s1 i g, alloc_slot s it = Some (s1, i, g) /\ alloc_facts s s1 i g it /\
     let s2 := set_queue s1 (q_insert (c mod M32) i cb (queue s1)) in
     TInv s2 /\ counters_ok s2 (n + 1) /\
@@ -523,7 +523,7 @@ Qed.
 Lemma rekey_ok s i vs c x c' ex' n :
   TInv s -> counters_ok s n -> vget (var s) i = Some vs -> curr_of vs = Some c ->
   gnn x = gnn vs -> curr_of x = Some c' -> expiry_of x = Some ex' ->
-  now s < c' <= now s + WIN -> c' mod 65536 <= 61036 -> 0 <= ex' < 2 ^ 50 ->
+  now s < c' <= now s + WIN -> c' mod 65536 <= 61036 -> ex_ok ex' ->
   exists cb r, q_remove (c mod M32) i (queue s) = Some (cb, r) /\ In (c mod M32, i, cb) (queue s) /\
     let s' := set_queue (set_var s (vset (var s) i x)) (q_insert (c' mod M32) i cb r) in
     TInv s' /\ counters_ok s' n /\
@@ -592,7 +592,7 @@ Qed.
 (** ** overwrite the expiry of a live slot (mod_max, mod_min) *)
 Lemma set_expiry_ok s i vs c x ex' n :
   TInv s -> counters_ok s n -> vget (var s) i = Some vs -> curr_of vs = Some c ->
-  gnn x = gnn vs -> curr_of x = Some c -> expiry_of x = Some ex' -> 0 <= ex' < 2 ^ 50 ->
+  gnn x = gnn vs -> curr_of x = Some c -> expiry_of x = Some ex' -> ex_ok ex' ->
   let s' := set_var s (vset (var s) i x) in TInv s' /\ counters_ok s' n.
 Proof.
   intros I (C1 & C2 & C3) Hg Hc Hgn Hcx Hex Hex'. pose proof (TInv_PH s I) as P. cbv zeta. split.
@@ -621,7 +621,7 @@ Proof.
   intros I C Hn Hns ex c. destruct (now_facts _ _ _ (TInv_PH s I)) as [Hnow Hlow].
   destruct (ceil_facts ns Hns) as [He Hel]. fold ex in He, Hel.
   destruct (cmax_bounds (now s) ex ltac:(lia) Hlow Hel) as (B1 & B2 & B3). fold c in B1, B2, B3.
-  destruct (alloc_insert_ok s (VMax ex c) c ex cb n I C Hn ltac:(left; reflexivity) ltac:(lia) B2 ltac:(lia))
+  destruct (alloc_insert_ok s (VMax ex c) c ex cb n I C Hn ltac:(left; reflexivity) ltac:(lia) B2 ltac:(unfold ex_ok; lia))
     as (s1 & i & g & Ea & Fa & I2 & C2 & Hin).
   exists s1, i, g. split; [assumption|split; [assumption|]]. cbv zeta.
   split; [|split; [assumption|split; [assumption|split; [assumption|lia]]]].
@@ -644,7 +644,7 @@ Proof.
   destruct (cmax_bounds (now s) ex ltac:(lia) Hlow Hel) as (B1 & B2 & B3).
   set (t1 := Z.min (Z.max ex (now s + 1)) (now s + WIN)) in *.
   destruct (r75_range (now s + 1) t1 ltac:(lia) ltac:(lia) B2) as (R1 & R2 & R3). fold c in R1, R2, R3.
-  destruct (alloc_insert_ok s (VMin ex c) c ex cb n I C Hn ltac:(right; reflexivity) ltac:(lia) R3 ltac:(lia))
+  destruct (alloc_insert_ok s (VMin ex c) c ex cb n I C Hn ltac:(right; reflexivity) ltac:(lia) R3 ltac:(unfold ex_ok; lia))
     as (s1 & i & g & Ea & Fa & I2 & C2 & Hin).
   exists s1, i, g. split; [assumption|split; [assumption|]]. cbv zeta.
   split; [|split; [assumption|split; [assumption|split; [assumption|lia]]]].
@@ -698,7 +698,8 @@ Proof.
   rewrite (t_ceil_spec ns Hns). cbn [obind]. rewrite Eg. cbv zeta. split; [reflexivity|].
   destruct (i_slots s I slot vs Hg) as [G L]. unfold curr_of, expiry_of in L. rewrite Hi in L. destruct L as (L1 & L2 & L3).
   apply (set_expiry_ok s slot vs c (mkVS g (VMax (Z.max e (ceil_ns ns)) c)) (Z.max e (ceil_ns ns)) n I C Hg);
-    unfold curr_of, expiry_of; cbn [item gnn]; rewrite ?Hi; try reflexivity; try congruence. lia.
+    unfold curr_of, expiry_of; cbn [item gnn]; rewrite ?Hi; try reflexivity; try congruence.
+  unfold ex_ok in *. destruct (Z.max_spec e (ceil_ns ns)) as [[? ->]|[? ->]]; lia.
 Qed.
 
 (** ** del_max / del_min *)
@@ -758,7 +759,8 @@ Proof.
   - left. apply q_remove_Some in Hr. destruct Hr as (l1 & e & l2 & Eq & -> & Hc & Hk & _).
     pose proof (kcmp_Eq_gen _ _ _ _ Hk) as [Es _].
     destruct (ph_detach_gen s l1 e l2 (TInv_PH s I) Eq) as [P1 Hmem].
-    exists cb, l1, e, l2. repeat split; auto; try apply Hmem.
+    exists cb, l1, e, l2.
+    split; [assumption|split; [assumption|split; [assumption|split; [auto|split; [reflexivity|split; [|assumption]]]]]].
     eapply TInv_of_PH; [|exact I|reflexivity|reflexivity]. sproj.
     eapply ph_drop; [exact P1|lia].
   - right. split; [apply q_remove_None; assumption|reflexivity].
@@ -800,12 +802,152 @@ Proof.
     destruct (r75_range (now s + 1) t1 ltac:(lia) ltac:(lia) B2) as (R1 & R2 & R3).
     set (c' := r75 (now s + 1) t1) in *.
     destruct (rekey_ok s slot vs c (mkVS g (VMin e' c')) c' e' n I C Hg Hc) as (cb & r & Hr & Hin & I' & C' & Hmem);
-      try reflexivity; try (symmetry; assumption); try lia.
+      try reflexivity; try (symmetry; assumption); try (unfold ex_ok; lia).
     exists cb, r. split; [assumption|split; [assumption|]].
     split; [|split; [assumption|split; [assumption|split; [assumption|lia]]]].
     unfold time_wt. cbn [obind]. fold M32. rewrite Hr. rewrite (inc_now _ Hnow). cbn [obind].
     unfold MOD_MIN_SECS. rewrite (lim_now _ Hnow). cbn [obind]. fold t1.
     rewrite rounded_75point_spec by (unfold WIN in *; lia). cbn [obind]. fold c'. rewrite Eg. reflexivity.
   - right. left. split; [assumption|split; [assumption|]]. cbv zeta. rewrite Eg. split; [reflexivity|].
-    apply (set_expiry_ok s slot vs c (mkVS g (VMin e' c)) e' n I C Hg Hc); try reflexivity; try (symmetry; assumption). lia.
+    apply (set_expiry_ok s slot vs c (mkVS g (VMin e' c)) e' n I C Hg Hc); try reflexivity; try (symmetry; assumption). unfold ex_ok; lia.
+Qed.
+
+(** * advance *)
+
+(** one iteration of the loop over the split-off head: the new state and the callbacks pushed *)
+Definition ph_step (e : entry) (target : Z) (s : tstate) : option (tstate * list Z) :=
+  let slot := e_slot e in
+  if slot >=? ADVANCE_FIXED_BIT then Some (s, [e_cb e])
+  else
+    match vget (var s) slot with
+    | None => None
+    | Some vs =>
+        match item vs with
+        | VMax ex c =>
+            if ex <=? target then s1 <- free_slot s slot ;; Some (s1, [e_cb e])
+            else
+              lim <- time_add_secs (now s) ADVANCE_REQUEUE_SECS ;;
+              let c' := Z.min ex lim in
+              wt <- time_wt c' ;;
+              Some (m_requeue s slot (mkVS (gnn vs) (VMax ex c')) wt (e_cb e), [])
+        | VMin ex c =>
+            if ex <=? target then s1 <- free_slot s slot ;; Some (s1, [e_cb e])
+            else
+              lim <- time_add_secs (now s) ADVANCE_REQUEUE_SECS ;;
+              c' <- rounded_75point (now s) (Z.min ex lim) ;;
+              wt <- time_wt c' ;;
+              Some (m_requeue s slot (mkVS (gnn vs) (VMin ex c')) wt (e_cb e), [])
+        | VFree _ => None
+        end
+    end.
+
+Lemma process_head_cons e rest target s fired :
+  process_head (e :: rest) target s fired =
+  match ph_step e target s with
+  | Some (s1, d) => process_head rest target s1 (fired ++ d)
+  | None => None
+  end.
+Proof.
+  cbn [process_head]. unfold ph_step. destruct (e_slot e >=? ADVANCE_FIXED_BIT); [reflexivity|].
+  destruct (vget (var s) (e_slot e)) as [vs|]; [|reflexivity].
+  destruct (item vs) as [ex c|ex c|nx]; [| |reflexivity].
+  - destruct (ex <=? target).
+    + destruct (free_slot s (e_slot e)); reflexivity.
+    + destruct (time_add_secs (now s) ADVANCE_REQUEUE_SECS); [|reflexivity]. cbn [obind time_wt]. rewrite app_nil_r. reflexivity.
+  - destruct (ex <=? target).
+    + destruct (free_slot s (e_slot e)); reflexivity.
+    + destruct (time_add_secs (now s) ADVANCE_REQUEUE_SECS); [|reflexivity]. cbn [obind].
+      destruct (rounded_75point (now s) (Z.min ex z)); [|reflexivity]. cbn [obind time_wt]. rewrite app_nil_r. reflexivity.
+Qed.
+
+(** generic invariant rule for the loop over the head *)
+Lemma process_head_inv (P : tstate -> list entry -> list Z -> Prop) target :
+  (forall s e hd fired, P s (e :: hd) fired ->
+     exists s1 d, ph_step e target s = Some (s1, d) /\ P s1 hd (fired ++ d)) ->
+  forall hd s fired, P s hd fired ->
+    exists s' fired', process_head hd target s fired = Some (s', fired') /\ P s' [] fired'.
+Proof.
+  intros Hstep. induction hd as [|e hd IH]; intros s fired HP.
+  - exists s, fired. split; [reflexivity|assumption].
+  - rewrite process_head_cons. destruct (Hstep s e hd fired HP) as (s1 & d & E & HP1). rewrite E. apply IH. assumption.
+Qed.
+
+(** what one iteration does, under the invariant *)
+Inductive step_kind (e : entry) (target : Z) (s s1 : tstate) (d : list Z) : Prop :=
+| sk_fixed : FIX <= e_slot e -> s1 = s -> d = [e_cb e] -> step_kind e target s s1 d
+| sk_fire vs c ex : e_slot e < FIX -> vget (var s) (e_slot e) = Some vs ->
+    curr_of vs = Some c -> expiry_of vs = Some ex -> ex <= target ->
+    free_slot s (e_slot e) = Some s1 -> d = [e_cb e] ->
+    queue s1 = queue s -> seq s1 = seq s ->
+    vget (var s1) (e_slot e) = Some (mkVS (gnn vs + 1) (VFree (var_free s))) ->
+    (forall j, j <> e_slot e -> vget (var s1) j = vget (var s) j) ->
+    step_kind e target s s1 d
+| sk_requeue vs c ex c' it' : e_slot e < FIX -> vget (var s) (e_slot e) = Some vs ->
+    target < ex ->
+    ((item vs = VMax ex c /\ c' = Z.min ex (now s + WIN) /\ it' = VMax ex c') \/
+     (item vs = VMin ex c /\ c' = r75 (now s) (Z.min ex (now s + WIN)) /\ it' = VMin ex c')) ->
+    now s < c' <= now s + WIN -> c' <= ex ->
+    s1 = m_requeue s (e_slot e) (mkVS (gnn vs) it') (c' mod M32) (e_cb e) -> d = [] ->
+    (forall y, In y (queue s1) <-> y = (c' mod M32, e_slot e, e_cb e) \/ In y (queue s)) ->
+    step_kind e target s s1 d.
+
+Lemma CH_vset n s i vs x : CH n s -> vget (var s) i = Some vs -> gnn x = gnn vs -> is_free x = is_free vs ->
+  CH n (set_var s (vset (var s) i x)).
+Proof.
+  intros (A & B & C) Hg Hgn Hf. split; [exact A|split; [sproj; rewrite vset_length; exact B|]].
+  intros j vsj Hj. sproj. rewrite (vget_vset _ _ _ _ _ Hg) in Hj. destruct (i =? j); [|eauto].
+  injection Hj as <-. rewrite Hgn, Hf. eauto.
+Qed.
+
+Lemma ph_step_ok now0 n target s e hd :
+  PH now0 s (e :: hd) -> CH n s -> n < HMAX -> now s <= target ->
+  exists s1 d, ph_step e target s = Some (s1, d) /\ PH now0 s1 hd /\ CH n s1 /\
+    now s1 = now s /\ cnow s1 = cnow s /\ step_kind e target s s1 d.
+Proof.
+  intros P C Hn Ht. destruct (now_facts _ _ _ P) as [Hnow Hlow]. unfold ph_step. unfold ADVANCE_FIXED_BIT.
+  destruct (Z.geb_spec (e_slot e) 2147483648) as [Hf|Hv].
+  - exists s, [e_cb e]. split; [reflexivity|]. split; [eapply ph_drop; [eassumption|unfold FIX; lia]|].
+    split; [assumption|split; [reflexivity|split; [reflexivity|]]]. apply sk_fixed; auto; unfold FIX; lia.
+  - fold FIX in Hv.
+    destruct (var_entry_live _ _ (h_varh _ _ _ P e ltac:(left; reflexivity) Hv)) as (vs & c & Hg & Hc & Hw & Hlive).
+    rewrite Hg. destruct (h_slots _ _ _ P _ _ Hg) as [G L]. destruct (curr_live _ _ Hc) as [_ [ex Hex]].
+    rewrite Hc, Hex in L. destruct L as [Lex _].
+    destruct C as (C1 & C2 & C3). destruct (C3 _ _ Hg) as [G1 G2]. specialize (G2 Hlive).
+    assert (Fire : ex <= target ->
+      exists s1 d, (s1 <- free_slot s (e_slot e) ;; Some (s1, [e_cb e])) = Some (s1, d) /\ PH now0 s1 hd /\ CH n s1 /\
+        now s1 = now s /\ cnow s1 = cnow s /\ step_kind e target s s1 d).
+    { intros Hle. destruct (ph_free now0 s e hd vs P Hv Hg ltac:(unfold HMAX, M32 in *; lia))
+        as (s1 & Ef & P1 & F1 & F2 & F3 & F4 & F5 & F6 & F7).
+      exists s1, [e_cb e]. rewrite Ef. cbn [obind]. split; [reflexivity|split; [assumption|]].
+      split; [|split; [assumption|split; [assumption|]]].
+      - split; [lia|split; [lia|]]. intros j vsj Hj. destruct (Z.eq_dec j (e_slot e)) as [->|Hne].
+        + rewrite F5 in Hj. injection Hj as <-. cbn. split; [lia|discriminate].
+        + rewrite F6 in Hj by assumption. auto.
+      - eapply sk_fire; eauto. }
+    assert (Requeue : forall c' it', target < ex -> now s < c' <= now s + WIN -> c' mod 65536 <= 61036 -> c' <= ex ->
+      ((item vs = VMax ex c /\ c' = Z.min ex (now s + WIN) /\ it' = VMax ex c') \/
+       (item vs = VMin ex c /\ c' = r75 (now s) (Z.min ex (now s + WIN)) /\ it' = VMin ex c')) ->
+      let s1 := m_requeue s (e_slot e) (mkVS (gnn vs) it') (c' mod M32) (e_cb e) in
+      PH now0 s1 hd /\ CH n s1 /\ now s1 = now s /\ cnow s1 = cnow s /\ step_kind e target s s1 []).
+    { intros c' it' Hlt Hc' Hl' Hce Hk s1.
+      assert (Hcx : curr_of (mkVS (gnn vs) it') = Some c' /\ expiry_of (mkVS (gnn vs) it') = Some ex /\ is_free (mkVS (gnn vs) it') = false).
+      { destruct Hk as [(_ & _ & ->)|(_ & _ & ->)]; cbn; auto. }
+      destruct Hcx as (X1 & X2 & X3).
+      destruct (ph_requeue now0 s e hd vs (mkVS (gnn vs) it') c' ex P Hv Hg eq_refl X1 X2 Hc' Hl' Lex) as [P1 Hin].
+      split; [exact P1|]. split; [|split; [reflexivity|split; [reflexivity|]]].
+      - unfold s1, m_requeue. destruct (CH_vset n s (e_slot e) vs (mkVS (gnn vs) it') (conj C1 (conj C2 C3)) Hg eq_refl ltac:(congruence)) as (D1 & D2 & D3).
+        split; [exact D1|split; [exact D2|exact D3]].
+      - eapply sk_requeue; eauto. }
+    destruct Lex as [Lex1 Lex2].
+    unfold curr_of in Hc. unfold expiry_of in Hex. unfold ADVANCE_REQUEUE_SECS. rewrite (lim_now _ Hnow). cbn [obind time_wt]. fold M32.
+    destruct (item vs) as [ex0 c0|ex0 c0|nx] eqn:Hi; [| |discriminate].
+    + injection Hc as ->. injection Hex as ->. destruct (Z.leb_spec ex target) as [Hle|Hgt]; [auto|].
+      destruct (cmin_adv_bounds (now s) ex ltac:(lia) Hlow Lex2 ltac:(lia)) as (B1 & B2 & B3).
+      eexists _, []. split; [reflexivity|]. apply (Requeue (Z.min ex (now s + WIN)) (VMax ex (Z.min ex (now s + WIN)))); auto.
+    + injection Hc as ->. injection Hex as ->. destruct (Z.leb_spec ex target) as [Hle|Hgt]; [auto|].
+      destruct (cmin_adv_bounds (now s) ex ltac:(lia) Hlow Lex2 ltac:(lia)) as (B1 & B2 & B3).
+      destruct (r75_range (now s) (Z.min ex (now s + WIN)) ltac:(lia) ltac:(lia) B2) as (R1 & R2 & R3).
+      rewrite rounded_75point_spec by (unfold WIN in *; lia). cbn [obind].
+      eexists _, []. split; [reflexivity|].
+      apply (Requeue (r75 (now s) (Z.min ex (now s + WIN))) (VMin ex (r75 (now s) (Z.min ex (now s + WIN))))); auto; lia.
 Qed.
